@@ -400,6 +400,23 @@ func genC16(c *Ctx) {
 			}
 		}
 	}
+	// calls whose argument is a group whose member is a call whose argument is a group ...: the text that reports an error found at the
+	// bottom must stay proportionate to the query (validated last: a call that does not return keeps the package mutex)
+	{
+		schema := "input: {\n\tname: string\n\t_dependencies: []\n}\n"
+		for _, depth := range []int{6, 12, 18, 24} {
+			q := strings.Repeat("$.input.name.AnyOf({", depth) + "$.zzz.Equal(1)" + strings.Repeat("})", depth)
+			t := c16Triple{q, schema, "", "calls-and-groups-nested-in-turn", nil}
+			o := cueValidateGuarded(t.Q, t.S, t.CP)
+			line, _ := json.Marshal(map[string]any{"pos": "unmodelled", "q": hx(t.Q), "dom": false})
+			c.Record(line, o.Line, t.cls, true, t.cls, o.Line, map[string]any{"query": trunc(t.Q, 200), "current_step": t.CP, "schema": t.S, "impl": o.Line, "class": t.cls})
+			if o.Line == "PANIC" || o.Line == "TIMEOUT" || o.Line == "NEITHER" {
+				c.addViolation(Violation{Kind: "panic", Query: t.Q, QueryHex: hx(t.Q), Got: o.Line, Why: "CueValidate did not return a result or an error: " + o.Line + " " + trunc(o.Errs, 160), Cls: t.cls,
+					Key: "c16:total:" + o.Line, Extra: map[string]any{"schema": t.S, "current_step": t.CP, "nesting_depth": depth}})
+				break
+			}
+		}
+	}
 	c.Extra["fresh_process_comparisons"] = fresh
 	c.Extra["kept_trees_remarshalled"] = len(keep)
 }
